@@ -1634,6 +1634,10 @@ bool Node::ingest_manifest(const std::string& manifest_uri) {
         return false;
     }
 
+    if (!manifest_keeps_held_chunk_readable(manifest)) {
+        return false;
+    }
+
     {
         SchedulerLock lock(scheduler_mutex_);
         manifest_cache_[chunk_id_to_string(manifest.chunk_id)] = manifest;
@@ -1641,6 +1645,58 @@ bool Node::ingest_manifest(const std::string& manifest_uri) {
     }
     update_swarm_plan(manifest);
     return true;
+}
+
+bool Node::manifest_keeps_held_chunk_readable(const protocol::Manifest& manifest) {
+    // A manifest that arrives without the chunk (ingest, announce) cannot be checked against anything.
+    // If this node holds the chunk, such a manifest may refresh the key shares the chunk is read with,
+    // but it must stand for the same content hash and the same key: fetch_chunk would otherwise decrypt
+    // the held bytes into something else and return that as the chunk.
+    std::optional<ChunkRecord> record;
+    std::optional<KademliaTable::KeyShardRecord> shard_info;
+    {
+        SchedulerLock lock(scheduler_mutex_);
+        record = chunk_store_.get_record(manifest.chunk_id);
+        shard_info = dht_.shard_record(manifest.chunk_id);
+    }
+    if (!record.has_value() || !record->encrypted) {
+        return true;
+    }
+
+    // the manifest the held chunk was verified against, and the key shares fetch_chunk reads it with at present
+    const auto cached = manifest_for_chunk(manifest.chunk_id);
+    if (cached.has_value() && cached->chunk_hash != manifest.chunk_hash) {
+        return false;
+    }
+    std::vector<protocol::KeyShard> current;
+    std::uint8_t current_threshold = 0;
+    if (shard_info.has_value() && shard_info->threshold > 0 && shard_info->shards.size() >= shard_info->threshold) {
+        current = shard_info->shards;
+        current_threshold = shard_info->threshold;
+    } else if (cached.has_value() && cached->threshold > 0 && cached->shards.size() >= cached->threshold) {
+        current = cached->shards;
+        current_threshold = cached->threshold;
+    }
+    if (current_threshold == 0) {
+        return true;
+    }
+
+    const auto reconstruct = [](const std::vector<protocol::KeyShard>& shards, std::uint8_t threshold) {
+        std::vector<crypto::ShamirShare> shares;
+        shares.reserve(shards.size());
+        for (const auto& shard : shards) {
+            crypto::ShamirShare share{};
+            share.index = shard.index;
+            share.value = shard.value;
+            shares.push_back(share);
+        }
+        return crypto::Shamir::combine(shares, threshold);
+    };
+    try {
+        return reconstruct(current, current_threshold) == reconstruct(manifest.shards, manifest.threshold);
+    } catch (const std::exception&) {
+        return false;
+    }
 }
 
 std::optional<ChunkData> Node::receive_chunk(const std::string& manifest_uri, ChunkData ciphertext) {
@@ -2476,12 +2532,18 @@ void Node::handle_announce(const protocol::AnnouncePayload& payload,
         return;
     }
 
+    // an announced manifest must not displace the key shares of a chunk this node holds (see
+    // manifest_keeps_held_chunk_readable); the announcement itself is still taken note of
+    const bool replace_manifest = manifest_keeps_held_chunk_readable(manifest);
+
     {
         SchedulerLock lock(scheduler_mutex_);
         const auto chunk_key = chunk_id_to_string(manifest.chunk_id);
-        manifest_cache_[chunk_key] = manifest;
-        dht_.publish_shards(manifest.chunk_id, manifest.shards, manifest.threshold, manifest.total_shares, *ttl_opt);
-        update_swarm_plan(manifest);
+        if (replace_manifest) {
+            manifest_cache_[chunk_key] = manifest;
+            dht_.publish_shards(manifest.chunk_id, manifest.shards, manifest.threshold, manifest.total_shares, *ttl_opt);
+            update_swarm_plan(manifest);
+        }
         note_peer_seed(manifest.chunk_id, sender);
         clear_announce_failures(sender);
 
